@@ -42,6 +42,12 @@ def main():
         traceback.print_exc()
         print("TOOL-ERROR: harness exception")
         return 2
+    except BaseException as e:  # noqa - pyo3 PanicException derives from BaseException
+        if isinstance(e, (KeyboardInterrupt, SystemExit)):
+            raise
+        traceback.print_exc()
+        print("TOOL-ERROR: a panic of the code under test escaped a driver (%s)" % type(e).__name__)
+        return 2
 
 
 if __name__ == "__main__":
